@@ -236,6 +236,7 @@ type bmcSys struct {
 	extractRound int
 	spawned      map[string][]*bproc
 	dynChans     map[string]*dynChan
+	localSnaps   map[string]*Object
 }
 
 func (b *bmcSys) logf(format string, a ...interface{}) {
@@ -1154,7 +1155,7 @@ func valueID(v Value) string {
 		if x.Arena != nil {
 			return fmt.Sprintf("pa:%s:%d", x.Arena.Name, x.Idx.ID)
 		}
-		if strings.HasPrefix(x.Obj.Name, "local:") {
+		if strings.HasPrefix(x.Obj.Name, "local:") && !x.Obj.Snap {
 			unsupported("a pointer to a goroutine-local non-scalar object (%s) is live across a visible operation", x.Obj.T)
 		}
 		return "p:" + cellKey(x.Obj, x.Path)
@@ -1245,13 +1246,17 @@ func (b *bmcSys) capture(m *Machine, p *bproc) (*bloc, map[*term.T]*term.T) {
 	}
 	var key strings.Builder
 	var tpls []*frameTpl
+	rl := &relocator{b: b, m: m, seen: map[*Object]*Object{}}
 	for d, fr := range m.stack {
 		idx := fr.idx
 		live := liveBefore(fr.fn, fr.blk, idx)
 		if d < len(m.stack)-1 {
 			// suspended at a call: idx already points behind it
 		}
-		tpl := &frameTpl{fn: fr.fn, blk: fr.blk, prev: fr.prev, idx: idx, fixed: map[ssa.Value]Value{}, free: fr.free, callInstr: fr.callInstr, catch: fr.catch}
+		tpl := &frameTpl{fn: fr.fn, blk: fr.blk, prev: fr.prev, idx: idx, fixed: map[ssa.Value]Value{}, callInstr: fr.callInstr, catch: fr.catch}
+		for _, fv := range fr.free {
+			tpl.free = append(tpl.free, rl.reloc(fv, 0))
+		}
 		tpl.defers = append(tpl.defers, fr.defers...)
 		fmt.Fprintf(&key, "|%p.%d.%d", fr.fn, fr.blk.Index, idx)
 		var regs []ssa.Value
@@ -1278,10 +1283,11 @@ func (b *bmcSys) capture(m *Machine, p *bproc) (*bloc, map[*term.T]*term.T) {
 					continue
 				}
 			}
+			val = rl.reloc(val, 0)
 			tpl.fixed[v] = val
 			fmt.Fprintf(&key, ";%s=%s", regName(v), valueID(val))
 		}
-		for _, fv := range fr.free {
+		for _, fv := range tpl.free {
 			fmt.Fprintf(&key, ";fv=%s", valueID(fv))
 		}
 		for _, df := range fr.defers {
@@ -1306,6 +1312,130 @@ func (b *bmcSys) capture(m *Machine, p *bproc) (*bloc, map[*term.T]*term.T) {
 	p.locs = append(p.locs, l)
 	b.classify(m, l)
 	return l, upd
+}
+
+// relocator: goroutine-local non-scalar cells (a captured ctx, a channel
+// variable, ...) that are live across a visible operation become part of the
+// location: the registers of the location point to a canonical snapshot object
+// holding the cell's (non-symbolic) content; the same content at the same place
+// gives the same location. Paths starting there write through their overlay.
+type relocator struct {
+	b    *bmcSys
+	m    *Machine
+	seen map[*Object]*Object
+}
+
+func (rl *relocator) reloc(v Value, depth int) Value {
+	if depth > 8 {
+		unsupported("deeply linked goroutine-local objects live across a visible operation")
+	}
+	switch x := v.(type) {
+	case *PtrV:
+		if !isLocalPtr(x) {
+			return v
+		}
+		so, ok := rl.seen[x.Obj]
+		if !ok {
+			ord := len(rl.seen)
+			rl.seen[x.Obj] = nil // reserve the ordinal (cycles are not supported)
+			content := rl.reloc(rl.m.objVal(x.Obj), depth+1)
+			if hasSymbolicLeaf(content) {
+				unsupported("a goroutine-local non-scalar object (%s) with symbolic content is live across a visible operation", x.Obj.T)
+			}
+			k := fmt.Sprintf("%d:%s:%s", ord, x.Obj.T, valueID(content))
+			so = rl.b.localSnaps[k]
+			if so == nil {
+				so = &Object{T: x.Obj.T, Val: content, Name: "local:snap", Ghost: true, Snap: true}
+				rl.b.objSeq++
+				so.ID = 7000000 + rl.b.objSeq
+				if rl.b.localSnaps == nil {
+					rl.b.localSnaps = map[string]*Object{}
+				}
+				rl.b.localSnaps[k] = so
+			}
+			rl.seen[x.Obj] = so
+		}
+		if so == nil {
+			unsupported("cyclic goroutine-local objects live across a visible operation")
+		}
+		return &PtrV{Obj: so, Path: x.Path}
+	case *StructV:
+		r := &StructV{F: make([]Value, len(x.F))}
+		ch := false
+		for i, e := range x.F {
+			r.F[i] = rl.reloc(e, depth)
+			ch = ch || r.F[i] != e
+		}
+		if !ch {
+			return v
+		}
+		return r
+	case *ArrayV:
+		r := &ArrayV{E: make([]Value, len(x.E))}
+		ch := false
+		for i, e := range x.E {
+			r.E[i] = rl.reloc(e, depth)
+			ch = ch || r.E[i] != e
+		}
+		if !ch {
+			return v
+		}
+		return r
+	case *FuncV:
+		if x == nil || x.Fn == nil || len(x.Free) == 0 {
+			return v
+		}
+		cf := *x
+		cf.Free = make([]Value, len(x.Free))
+		ch := false
+		for i, e := range x.Free {
+			cf.Free[i] = rl.reloc(e, depth)
+			ch = ch || cf.Free[i] != e
+		}
+		if !ch {
+			return v
+		}
+		return &cf
+	case *IfaceV:
+		if x == nil || x.Dyn == nil || x.Tag != nil {
+			return v
+		}
+		nv := rl.reloc(x.V, depth)
+		if nv == x.V {
+			return v
+		}
+		c := *x
+		c.V = nv
+		return &c
+	}
+	return v
+}
+
+func hasSymbolicLeaf(v Value) bool {
+	switch x := v.(type) {
+	case *term.T:
+		return !x.IsConst()
+	case *StructV:
+		for _, e := range x.F {
+			if hasSymbolicLeaf(e) {
+				return true
+			}
+		}
+	case *ArrayV:
+		for _, e := range x.E {
+			if hasSymbolicLeaf(e) {
+				return true
+			}
+		}
+	case *IfaceV:
+		if x != nil && x.Tag != nil {
+			return true
+		}
+		if x != nil && x.Dyn != nil {
+			return hasSymbolicLeaf(x.V)
+		}
+	}
+	return false
 }
 
 func shortFn(fn *ssa.Function) string {
